@@ -81,10 +81,18 @@ Definition supported_cmd (c : Scte35Spec.command) : Prop :=
   | OtherCmd _ _ => False
   end.
 
+(* the part of wf_splice_info the decoder's correctness depends on (it does not look at CRC_32,
+   protocol_version, cw_index, the pointer filler or the stuffing bytes) *)
+Definition wf_decode (s : splice_info) : Prop :=
+  si_sap s < 4 /\ si_enc_alg s < 64 /\ si_pts_adj s < 8589934592 /\ si_tier s < 4096 /\
+  wf_command (si_cmd s) /\ len (ser_command (si_cmd s)) < 4095 /\
+  Forall wf_descriptor (si_descs s) /\ len (ser_descriptors (si_descs s)) < 65536 /\
+  section_length s < 4096.
+
 (* what the library decodes: the SCTE 35 syntax with table_id 0xFC, clear, a supported command,
    and a pointer_field below 255 (psi: `PointerField(data)+1` is computed in uint8) *)
 Definition supported (s : splice_info) : Prop :=
-  wf_splice_info s /\ si_table_id s = 252 /\ si_encrypted s = false /\ len (si_pointer s) < 255 /\
+  wf_decode s /\ si_table_id s = 252 /\ si_encrypted s = false /\ len (si_pointer s) < 255 /\
   supported_cmd (si_cmd s).
 
 Definition cmd_time (c : Scte35Spec.command) : stime :=
